@@ -370,6 +370,37 @@ def _start_watchdog():
     threading.Thread(target=watch, daemon=True).start()
 
 
+def raised_in_repo(exc: BaseException) -> bool:
+    """
+    Was the exception raised by liesel itself (innermost frame inside $VERIF_REPO)?
+    An exception that liesel throws on a VALID operation is a violation; one thrown by
+    harness code is a harness error and must propagate.
+    """
+    repo = os.path.realpath(os.environ.get("VERIF_REPO", "/repo"))
+    tb = exc.__traceback__
+    last = None
+    while tb is not None:
+        last = tb.tb_frame.f_code.co_filename
+        tb = tb.tb_next
+    if last is None:
+        return False
+    last = os.path.realpath(last)
+    if last.startswith(repo + os.sep):
+        return True
+    # raised inside a third-party library called from liesel? look for the innermost
+    # frame that is either liesel or harness code
+    tb = exc.__traceback__
+    owner = None
+    while tb is not None:
+        f = os.path.realpath(tb.tb_frame.f_code.co_filename)
+        if f.startswith(repo + os.sep):
+            owner = "repo"
+        elif f.startswith(VERIF + os.sep):
+            owner = "harness"
+        tb = tb.tb_next
+    return owner == "repo"
+
+
 def worker_run(modname: str, unit: dict) -> dict:
     """Runs one unit inside a worker process."""
     t0 = time.time()
